@@ -1,6 +1,7 @@
 package main
 
 import (
+	"bytes"
 	"errors"
 	"fmt"
 	"io"
@@ -74,13 +75,15 @@ type c18case struct {
 }
 
 var c18words = []string{"login:", "Password:", "hello", "bad", "Continue? [y/n]", "ERROR", "done", "router#",
-	"--More--", "yes", "no", "ok", "warning", "passphrase", "42 packets", "Abort"}
+	"--More--", "yes", "no", "ok", "warning", "passphrase", "42 packets", "Abort",
+	"café", "über", "señal", "日本", "Zugriff verweigert: Ü", "é"}
 var c18filler = []string{"the", "quick", "interface", "is", "up", "10.0.0.1", "...", "%", "line protocol", "x"}
 
 // regexes a user might pass: lower case, or with their own case flag, plus (for the sensitivity
 // dimension) one written in upper case without a flag. None matches the empty string.
 var c18res = []string{`[a-z]+#`, `pass(word|phrase):?`, `(?i)ERROR`, `more`, `\d+ packets`, `(?m)^ok$`, `y/n`,
-	`ERROR`, `(?i)continue\?`, `log[a-z]n`, `(?i:Abort)|warning`, `\[y/n\]$`}
+	`ERROR`, `(?i)continue\?`, `log[a-z]n`, `(?i:Abort)|warning`, `\[y/n\]$`,
+	`caf[eé]`, `(?i)ÜBER`, `日本語?`, `se[nñ]al:?`, `é+`}
 
 func c18caseVar(r *vlib.Rng, w string) string {
 	switch r.Intn(5) {
@@ -89,8 +92,8 @@ func c18caseVar(r *vlib.Rng, w string) string {
 	case 1:
 		return strings.ToLower(w)
 	case 2:
-		if len(w) > 0 {
-			return strings.ToUpper(w[:1]) + strings.ToLower(w[1:])
+		if rs := []rune(w); len(rs) > 0 {
+			return strings.ToUpper(string(rs[:1])) + strings.ToLower(string(rs[1:]))
 		}
 	}
 	return w
@@ -99,6 +102,17 @@ func c18caseVar(r *vlib.Rng, w string) string {
 func c18cut(r *vlib.Rng, text string) [][]byte {
 	b := []byte(text)
 	var out [][]byte
+	// a cut INSIDE a multi-byte character (between its lead byte and a continuation byte)
+	var inside []int
+	for i := 1; i < len(b); i++ {
+		if b[i]&0xC0 == 0x80 {
+			inside = append(inside, i)
+		}
+	}
+	if len(inside) > 0 && r.Chance(1, 3) {
+		k := inside[r.Intn(len(inside))]
+		return [][]byte{b[:k], b[k:]}
+	}
 	for _, n := range r.Cuts(len(b), []int{0, 0, 1, 2, 2, 2, 3}[r.Intn(7)]) {
 		out = append(out, b[:n])
 		b = b[n:]
@@ -120,6 +134,9 @@ func genC18(seed uint64, thorough bool) c18case {
 	}
 	if r.Chance(1, 22) {
 		return genC18Delayed(r, cs)
+	}
+	if r.Chance(1, 12) {
+		return genC18Utf8(r, cs)
 	}
 	if r.Chance(1, 40) {
 		return genC18Odd(r, cs)
@@ -292,6 +309,58 @@ func genC18Delayed(r *vlib.Rng, cs c18case) c18case {
 	}
 	cs.emissions = append(cs.emissions, c18cut(r, "this will take a while, proceed?"), c18cut(r, "\nwork finished\nrouter#"))
 	cs.ops = []c18op{{input: "start", timeout: base}}
+	return cs
+}
+
+// genC18Utf8: a trigger with multi-byte characters whose bytes arrive in different reads. One
+// case-insensitive (or sensitive) completing callback on a contains text or a pattern; the device
+// sends filler + the trigger in some letter case + filler, cut at one byte offset drawn uniformly
+// from every offset of the trigger (so also inside each of its characters), or byte by byte.
+func genC18Utf8(r *vlib.Rng, cs c18case) c18case {
+	cs.kind = "utf8cut"
+	type tw struct{ contains, re, sample string }
+	pool := []tw{{"café", "", "café"}, {"CAFÉ", "", "café"}, {"über", "", "ÜBER"}, {"日本", "", "日本"}, {"é", "", "É"},
+		{"señal ok", "", "SEÑAL OK"}, {"", `caf[eé]`, "CAFÉ"}, {"", `(?i)ÜBER`, "über"}, {"", `日本語?`, "日本語"}, {"", `é+`, "éÉé"},
+		{"Ü", "", "ü"}, {"", `se[nñ]al:?`, "Señal:"}}
+	t := pool[r.Intn(len(pool))]
+	cb := c18cb{contains: t.contains, reSrc: t.re, insensitive: r.Chance(4, 5), reset: true, complete: true, name: "utf8", viaOptions: r.Bool()}
+	if cb.reSrc != "" {
+		cb.re = regexp.MustCompile(cb.reSrc)
+	}
+	if r.Chance(1, 4) {
+		cb.notContains = r.Pick([]string{"ÖDE", "nö", "本日"})
+	}
+	cs.cbs = []c18cb{cb}
+	if r.Chance(1, 3) { // an ASCII callback in front that does not fire
+		cs.cbs = append([]c18cb{{contains: "never-there", insensitive: true, reset: true, name: "none", viaOptions: true}}, cs.cbs...)
+	}
+	sample := t.sample
+	if r.Bool() {
+		sample = c18caseVar(r, sample)
+	}
+	pre := r.Pick([]string{"", "x ", "Menü: ", "状態 "})
+	post := r.Pick([]string{"", "\n", " ok", "!"})
+	text := []byte(pre + sample + post)
+	var chunks [][]byte
+	if r.Chance(1, 4) {
+		for i := range text {
+			chunks = append(chunks, text[i:i+1])
+		}
+	} else {
+		k := len(pre) + 1 + r.Intn(len(sample)) // 1 .. len(sample): every offset of the trigger, incl. just after it
+		if k >= len(text) {
+			k = len(text) - 1
+		}
+		if k < 1 {
+			k = 1
+		}
+		chunks = [][]byte{text[:k], text[k:]}
+		if len(text) < 2 {
+			chunks = [][]byte{text}
+		}
+	}
+	cs.emissions = [][][]byte{chunks}
+	cs.ops = []c18op{{input: "go", timeout: c18Short}}
 	return cs
 }
 
@@ -786,7 +855,7 @@ func c18visible(cs *c18case, r c18run) c18run {
 
 func runC18(c *ctx) {
 	res := c.res
-	res.Rule = "dialogues: real generic.Driver.SendWithCallbacks over a causal scripted device; 1-5 callbacks (contains / not-contains / regex lower-case, (?i) or upper-case / sensitivity / once / complete / reset-output / next-timeout / failing or nil function / reply written to the device), built through NewCallback+opoptions or struct literals; 1-5 device emissions made of trigger words in varied case and filler, cut whole / bytewise / randomly; 1-2 operations on the same callback objects; late emissions vs short/long stage timeouts; degenerate lists and non-ASCII output. non-trivial = in-domain case in which at least one callback ran; distinct by case seed"
+	res.Rule = "dialogues: real generic.Driver.SendWithCallbacks over a causal scripted device; 1-5 callbacks (contains / not-contains / regex lower-case, (?i) or upper-case / sensitivity / once / complete / reset-output / next-timeout / failing or nil function / reply written to the device), built through NewCallback+opoptions or struct literals; 1-5 device emissions made of trigger words in varied case and filler, cut whole / bytewise / randomly; 1-2 operations on the same callback objects; late emissions vs short/long stage timeouts; multi-byte triggers (é/É, ü/Ü, ñ, 日本) cut inside a character at every byte offset or read byte by byte; degenerate lists and out-of-alphabet output. non-trivial = in-domain case in which at least one callback ran; distinct by case seed"
 	if c.replay != "" {
 		f := strings.Fields(c.replay)
 		if len(f) >= 2 && f[0] == "c18case" {
@@ -799,6 +868,7 @@ func runC18(c *ctx) {
 	}
 	c18Internal(c)
 	c18RxPool(c)
+	c18FoldTie(c)
 	c18Constructor(c)
 	rxDiff(c, []string{"Channel.promptPattern"}, c.n(60, 600))
 	n := c.n(1500, 30000)
@@ -832,6 +902,43 @@ func c18Constructor(c *ctx) {
 		}
 	}
 	res.Count("constructor-checks")
+}
+
+// c18FoldTie: the model's `fold` against bytes.ToLower on texts over the modelled alphabet, whole
+// and cut at every byte offset (each fragment folded on its own, as a per-read fold would do).
+func c18FoldTie(c *ctx) {
+	res := c.res
+	r := c.rng.Fork()
+	var texts [][]byte
+	for _, w := range append(append([]string{}, c18words...), "CAFÉ", "ÜBER", "Ñ", "×÷ßÿ", "日本語", "ァイル", "Àþ", "\xc3", "\x89", "\xe6\x97", "a\xc3b", "\xe6a\xa5") {
+		for _, v := range []string{w, strings.ToUpper(w), strings.ToLower(w)} {
+			b := []byte(v)
+			texts = append(texts, b)
+			for k := 1; k < len(b); k++ {
+				texts = append(texts, b[:k], b[k:])
+			}
+		}
+	}
+	alpha := []byte{'a', 'Z', ' ', 0xC3, 0x89, 0xA9, 0x9C, 0xBC, 0x97, 0xE6, 0xE3, 0xE9, 0x80, 0xBF, 0xA5}
+	for k := c.n(400, 4000); k > 0; k-- {
+		texts = append(texts, r.Bytes(r.Range(1, 7), alpha))
+	}
+	var lines []string
+	for _, t := range texts {
+		lines = append(lines, "c18 fold "+vlib.Hex(t))
+	}
+	ans := c.ask(lines)
+	for i, t := range texts {
+		want := "1 " + vlib.Hex(bytes.ToLower(t))
+		if strings.HasPrefix(ans[i], "0 ") {
+			res.Count("fold-tie:out-of-alphabet") // e.g. Ÿ = ToUpper(ÿ): not claimed by the model
+			continue
+		}
+		if ans[i] != want {
+			res.Fail("correspondence", lines[i], fmt.Sprintf("bytes.ToLower(%q) = %q, model answers %s", t, bytes.ToLower(t), ans[i]), "fold-tie")
+		}
+	}
+	res.Distribution["fold-tie:cases"] = len(texts)
 }
 
 // c18RxPool: the callback patterns travel to the model as rendered terms; diff the Lean engine on
@@ -1025,6 +1132,9 @@ func c18round(c *ctx, cases []c18case, par int, first bool) (retry []c18case) {
 				}
 				if ob.run.outcome == "other:panic" && want.outcome == "timeout" && c18prefix(ob.run.events, want.events) && len(ob.run.events) == len(want.events) {
 					return "timeout-race-panic" // nil result received from the closed channel when the stage deadline fires
+				}
+				if ob.run.outcome == "timeout" && c18prefix(ob.run.events, want.events) && len(ob.run.events) < len(want.events) {
+					return "trigger-held-no-callback" // a trigger held on the accumulated output, yet nothing ran and the operation timed out
 				}
 				return base
 			}
